@@ -23,6 +23,8 @@ mod memsys;
 mod rng;
 mod sexp;
 mod json;
+mod world;
+mod scenario;
 mod suite;
 mod suites;
 
